@@ -16,6 +16,7 @@
  Rm memo          : every memoisation construct in the functions behind this property is keyed by everything it reads.
  Rp presence      : optional numeric fields are tested with `is None` / membership, never by truthiness (0 is a value).
  Re for-each      : loops that act on every item are never left early (break / return).
+ Ra alias mutation: a local that still names a list of another object (not copied) is never mutated in place.
 """
 import ast
 
@@ -390,6 +391,15 @@ def re_foreach(ctx):
     ctx.need('Re.for-each', 2)
 
 
+def ra_alias(ctx):
+    """Ra: a local that still names a list / dict of another object (bound from an attribute or an item, not copied on that path:
+    freshness lattice) is never mutated in place"""
+    from .common import alias_mutation_rule
+    from ..memo import scope_funcs
+    alias_mutation_rule(ctx, 'Ra.alias-mutation', scope_funcs(ctx.repo, 'C15'), 'an OMS or spectrum map would change through an alias')
+    ctx.need('Ra.alias-mutation', 5)
+
+
 from ..memo import rule_for as _memo_rule
 
 RULES_MEMO = ('Rm.memo', _memo_rule('C15', 'the spectrum map of another configuration would be reused'))
@@ -399,4 +409,4 @@ from ..presence import rule_for as _presence_rule
 
 RULES_PRESENCE = ('Rp.presence', _presence_rule('C15', 'a legal zero would be read as missing'))
 
-RULES = [('R5.common-range', r5_common_range), ('R1.layout', r1_layout), ('R2.indices', r2_indices), ('R3.grid', r3_grid), ('R4.walk', r4_walk), RULES_MEMO, RULES_PRESENCE, ('Re.for-each', re_foreach)]
+RULES = [('R5.common-range', r5_common_range), ('R1.layout', r1_layout), ('R2.indices', r2_indices), ('R3.grid', r3_grid), ('R4.walk', r4_walk), RULES_MEMO, RULES_PRESENCE, ('Re.for-each', re_foreach), ('Ra.alias-mutation', ra_alias)]
